@@ -112,6 +112,23 @@ func c09Cases() []c09Case {
 		{"select-omit-table.update", func(db *gorm.DB) (*gorm.DB, bool) {
 			return db.Table("items").Select("name").Omit("age").Update("name", "x"), false
 		}},
+		// deleting selected associations of a value without key: nothing may be sent for them either
+		{"select-hasmany.delete-zero-key", func(db *gorm.DB) (*gorm.DB, bool) {
+			return db.Select("Pets").Delete(&Owner{}), false
+		}},
+		{"select-hasone.delete-zero-key", func(db *gorm.DB) (*gorm.DB, bool) {
+			return db.Select("Profile").Delete(&Owner{}), false
+		}},
+		{"select-polymorphic.delete-zero-key", func(db *gorm.DB) (*gorm.DB, bool) {
+			return db.Select("Toys").Delete(&Kid{}), false
+		}},
+		{"select-many2many.delete-zero-key", func(db *gorm.DB) (*gorm.DB, bool) {
+			return db.Select("Langs").Delete(&Speaker{}), false
+		}},
+		{"select-hasmany.delete-keyed", func(db *gorm.DB) (*gorm.DB, bool) {
+			id := uint(verifrt.Intn("id", 0, 3))
+			return db.Select("Pets").Delete(&Owner{ID: id}), id != 0
+		}},
 		{"unscoped.delete.soft", func(db *gorm.DB) (*gorm.DB, bool) {
 			return db.Unscoped().Delete(&Doc{}), false
 		}},
@@ -200,6 +217,11 @@ func H_C09_Guard(shape int) {
 	if eff || allowCfg || allowSess {
 		verifrt.Assert(!missing, "C09.wrongly-rejected")
 		verifrt.Assert(res.Error == nil, "C09.error")
-		verifrt.Assert(c09Writes(s) == 1, "C09.main-statement")
+		if hasPrefix(c.name, "select-") {
+			// the selected association is deleted before the value itself
+			verifrt.Assert(c09Writes(s) >= 1, "C09.main-statement")
+		} else {
+			verifrt.Assert(c09Writes(s) == 1, "C09.main-statement")
+		}
 	}
 }
